@@ -37,7 +37,7 @@ ENV["RUSTFLAGS"] = "--cfg avra_verif"
 ENV.pop("RUSTUP_TOOLCHAIN", None)
 
 CAP_PATTERNS = {
-    "run": r"avra_lib::expr::Expr::run",
+    "run": r"avra_lib::expr::Expr::run(_nested)?",
     "clone": r"<avra_lib::expr::Expr as std::clone::Clone>::clone",
     "drop": r"std::ptr::drop_glue::<avra_lib::expr::Expr>",
     "dropop": r"std::ptr::drop_glue::<avra_lib::directive::Operand>",
@@ -317,7 +317,15 @@ def mangled_names(symtab, wanted):
                     table.setdefault(pretty, []).append(sym)
         _sym_cache[symtab] = table
     table = _sym_cache[symtab]
-    return {w: table.get(w, []) for w in wanted}
+    # `wanted` entries are regular expressions over the pretty names
+    out = {}
+    for w in wanted:
+        rx = re.compile("^(?:%s)$" % w) if w.startswith("avra_lib::expr::Expr::run") else None
+        if rx:
+            out[w] = [s for pn, syms in table.items() if rx.match(pn) for s in syms]
+        else:
+            out[w] = table.get(w, [])
+    return out
 
 
 # ------------------------------------------------------------------------------------------
@@ -800,8 +808,16 @@ def main():
         sys.exit(replay_file(sys.argv[2]))
     if len(sys.argv) >= 2 and sys.argv[1] == "setup":
         write_excl(set())
+        point_harness_at_repo()
         ok, secs, logf = build_native()
         log("native replay build: %s (%.0fs)" % ("ok" if ok else "FAILED", secs))
+        if not ok:
+            log(open(logf, errors="replace").read()[-3000:])
+            sys.exit(2)
+        ok, secs, logf = prepare_slots(TIER_CAPS["quick"]["jobs"])
+        log("kani build slots: %s (%.0fs)" % ("ok" if ok else "FAILED", secs))
+        if not ok:
+            log(open(logf, errors="replace").read()[-3000:])
         sys.exit(0 if ok else 2)
     print(__doc__)
     sys.exit(2)
